@@ -177,7 +177,7 @@ def run(ctx, rng_name="main"):
                 sd2, info2 = rev_impl.load(early)
                 if sd2 is not None:
                     m2 = sd2.revision_map
-                    probe = [i for i in idents_for(rng, hist) if "@" in i][:60] + ["head", "heads"] + [late["id"], late["id"][:-1]]
+                    probe = [i for i in idents_for(rng, hist) if "@" in i][:60] + ["head", "heads"] + [x for x in (late["id"], late["id"][:-1]) if x]
                     for ident in probe:  # fills whatever the map caches
                         impl_get(m2, ident, False)
                     try:
